@@ -124,8 +124,20 @@ def sub_accessor(case):
     req(list(res.coords[case.get("dim_name", "zones")].values) == ids and list(res.coords["stat"].values) == ["mean", "valid"],
         "zonal.mean coords", "zonal coords")
     req(res.attrs.get("nodata") == nd, "zonal.mean attrs %s" % (res.attrs,), "zonal attrs")
-    vals = res.values
     chk = np.where(np.isnan(arr), nd, arr) if arr.dtype.kind == "f" else arr
+    z_ok2 = bool(np.all((zones == case.get("joint_znd")) | ((zones >= 0) & (zones < nz))))  # in contract under the second reading too
+    if case.get("dask") and case.get("joint_znd") is not None and case["joint_znd"] != znd and z_ok2:
+        # a second lazy mean over the SAME zone values read with another zone nodata value, evaluated in one graph with the first
+        import dask
+        znd2 = case["joint_znd"]
+        za2 = xr.DataArray(zd, dims=("lat", "lon"), attrs={"nodata": znd2})
+        res2 = call("zonal.mean (second zone nodata)", lambda: xa.hdc.zonal.mean(za2, ids, dtype=odt, dim_name=case.get("dim_name", "zones"), name=case.get("name")))
+        with dask.config.set(scheduler="synchronous"):
+            r1, r2 = dask.compute(res, res2)
+        _compare("zonal.mean (evaluated together with a second result)", r1.values, chk, zones, nz, nd, znd, odt)
+        _compare("zonal.mean with zone nodata %r (evaluated together with the result for zone nodata %r)" % (znd2, znd), r2.values, chk, zones, nz, nd, znd2, odt)
+        return
+    vals = res.values
     _compare("zonal.mean", vals, chk, zones, nz, nd, znd, odt)
 
 
@@ -277,6 +289,8 @@ def raster(draw, accessor=False):
         case["nan_cells"] = draw(st.booleans())
         case["dim_name"] = draw(st.sampled_from(["zones", "adm"]))
         case["name"] = draw(st.sampled_from([None, "zm"]))
+        if case["dask"] and draw(st.booleans()):
+            case["joint_znd"] = draw(st.sampled_from([c for c in (-1, 0, 255, max(nz, 1) - 1) if c != znd]))
     else:
         case["perm"] = list(draw(st.permutations(list(range(Y * X)))))
     return case
